@@ -750,8 +750,9 @@ def gen_logic(tree, psrc, paths):
         for n in ast.walk(fn):
             if isinstance(n, ast.Call) and ast.unparse(n.func) == "np.isin" and isinstance(n.args[1], ast.List):
                 none_ids = [e.value for e in n.args[1].elts]
-            if isinstance(n, ast.Assign) and isinstance(n.value, ast.UnaryOp) and isinstance(n.value.operand, ast.Constant) \
-                    and isinstance(n.value.operand.value, float):
+            if isinstance(n, ast.Assign) and ((isinstance(n.value, ast.UnaryOp) and isinstance(n.value.operand, ast.Constant)
+                                               and isinstance(n.value.operand.value, float))
+                                              or (isinstance(n.value, ast.Constant) and isinstance(n.value.value, float))):
                 start = _norm(n.value)
             if isinstance(n, ast.For) and isinstance(n.iter, ast.Call) and ast.unparse(n.iter.func) == "sorted":
                 facts["altlocIdOrder"] = "sorted(set(ids))" if isinstance(n.iter.args[0], ast.Call) and ast.unparse(n.iter.args[0].func) == "set" else _norm(n.iter)
@@ -761,6 +762,8 @@ def gen_logic(tree, psrc, paths):
                         cmp_ = type(c2.test.ops[0]).__name__
         facts["altlocNone:" + name] = none_ids
         if cmp_:
+            if start is None:
+                raise ValueError("filter_highest_occupancy_altloc: start value of the running maximum not found")
             facts["altlocBest"] = [start, cmp_]
     # --- the compatibility check: guards and error classes
     # the per-field length tests are pinned with their bounds by `checkLengths` (C07_gen_check); here they would only pin whether they
